@@ -71,7 +71,7 @@ def build_input(trajs, how, dtype="int64"):
     raise ValueError(how)
 
 
-DTYPES = ["int64", "int32", "int16", "int8", "uint8", "uint16"]
+DTYPES = ["int64", "int32", "int16", "int8", "uint8", "uint16", ">i4", ">i2"]   # the last two: non-native byte order
 # the function, called with keywords or positionally as documented (assigns, lag_time, max_n_states, sliding_window),
 # and the estimator that counts through it (MSM(...).fit(a).tcounts_, nothing trimmed)
 ENTRY_POINTS = ["function", "function", "positional", "MSM.fit"]
